@@ -408,9 +408,51 @@ INT_VARS = set()  # variable names declared integer-valued by the running check
 
 
 def is_intvalued(s):
-    """Structural sufficient condition for 'integer-valued on the declared integer atoms'."""
+    """'Integer-valued on the declared integer atoms'.  First the cheap structural test (integer
+    coefficients over integer atoms); otherwise the exact criterion for polynomials with rational
+    coefficients: f with degree <= d_i in atom i is integer-valued on Z^n iff it is integer on the
+    grid prod {0..d_i} (its coefficients in the binomial basis are determined by, and integer
+    combinations of, those values) - e.g. accel*T*(T+1)/2 and jerk*(T^3-T)/6.  Function atoms
+    with integer values (FLOOR/CEIL/TRUNC/ROUND) count as independent integer atoms."""
     if not s.is_poly():
         return False
+    if _intvalued_structural(s):
+        return True
+    return _intvalued_by_grid(s)
+
+
+def _intvalued_by_grid(s):
+    import itertools
+    terms = s.num.terms
+    degs = {}
+    for m, c in terms.items():
+        for a, e in m:
+            if a[0] == 'v':
+                if a[1] not in INT_VARS:
+                    return False
+            elif a[1] not in INT_FUNCS:
+                return False
+            degs[a] = max(degs.get(a, 0), e)
+    atoms = sorted(degs, key=repr)
+    size = 1
+    for a in atoms:
+        size *= degs[a] + 1
+    if not atoms or size > 20000:
+        return False
+    for point in itertools.product(*[range(degs[a] + 1) for a in atoms]):
+        val = dict(zip(atoms, point))
+        tot = Fraction(0)
+        for m, c in terms.items():
+            t = c
+            for a, e in m:
+                t *= val[a] ** e
+            tot += t
+        if tot.denominator != 1:
+            return False
+    return True
+
+
+def _intvalued_structural(s):
     for m, c in s.num.terms.items():
         if c.denominator != 1:
             return False
